@@ -144,7 +144,7 @@ def emit_cif(lines, cols=None):
         row = {
             "group_PDB": "HETATM" if ln["het"] else "ATOM", "id": str(k + 1), "type_symbol": element_of(ln["an"]),
             "label_atom_id": _q(ln["an"]), "label_alt_id": ln["alt"] or ".", "label_comp_id": ln.get("lrn", ln["rn"]),
-            "label_asym_id": ln.get("lch", ln["ch"]), "label_entity_id": "1",
+            "label_asym_id": ln.get("lch", ln["ch"]), "label_entity_id": str(ln.get("lent", "1")),
             "label_seq_id": str(ln["lnum"]) if ln.get("lnum", 0) != 0 else ".",
             "pdbx_PDB_ins_code": ln["ic"] or ln.get("icn", "?"),
             "Cartn_x": _fx(ln["x"]), "Cartn_y": _fx(ln["y"]), "Cartn_z": _fx(ln["z"]),
